@@ -45,6 +45,8 @@ type c04World struct {
 	firings, crossOps, batches2, ticks int
 	minSlack                           time.Duration
 	inCallback                         int
+	selfSchedulesInRepeating           int
+	inRepeatingCallbackOf              map[*c04Timer]int
 	firedThisPoll                      int
 }
 
@@ -58,6 +60,11 @@ func (x *c04World) checkScheduled(t *c04Timer, after string) {
 	}
 	got := t.T.Scheduled()
 	want := t.state == tScheduled
+	if got != want && x.inRepeatingCallbackOf[t] > 0 {
+		// queried from inside the timer's own repeating callback: the listed finding
+		x.c.SoftFailf("scheduled-flag-differs/in-repeating-callback", "timer %d after %s, inside its own repeating callback: Scheduled()=%v, the next tick is still due", t.id, after, got)
+		return
+	}
 	if got != want {
 		x.c.Failf("scheduled-flag-differs/"+x.stateName(t.state), "timer %d after %s: Scheduled()=%v, model state is %s", t.id, after, got, x.stateName(t.state))
 	}
@@ -95,6 +102,30 @@ func (x *c04World) behave(self *c04Timer, what string) {
 			x.c.Logf("      handler(%s): cancel itself (repeating)", what)
 			x.cancel(self)
 		}
+	case 5:
+		if self != nil && self.repeating && self.state == tScheduled {
+			// the repeating schedule is still held while its callback runs: another Schedule* must fail and leave it alone
+			x.c.Logf("      handler(%s): schedules its own repeating timer again (must be refused, the series goes on)", what)
+			x.schedule(self, time.Duration(r.Range(1, 20))*time.Millisecond, r.Bool())
+			x.selfSchedulesInRepeating++
+			if r.Bool() && !x.c.Failed() {
+				x.c.Logf("      handler(%s): ... and then cancels itself", what)
+				x.cancel(self)
+			}
+		}
+	case 6:
+		if self != nil && self.repeating && self.state == tScheduled {
+			// the callback ends its own series and starts something new, and may think better of that too
+			x.c.Logf("      handler(%s): cancels its own repeating series, schedules itself anew ...", what)
+			x.cancel(self)
+			if !x.c.Failed() {
+				x.schedule(self, time.Duration(r.Range(1, 20))*time.Millisecond, r.Bool())
+			}
+			if r.Bool() && !x.c.Failed() {
+				x.c.Logf("      handler(%s): ... and cancels that again", what)
+				x.cancel(self)
+			}
+		}
 	default:
 		return
 	}
@@ -112,6 +143,10 @@ func (x *c04World) schedule(t *c04Timer, d time.Duration, repeating bool) {
 		now := time.Now()
 		x.inCallback++
 		defer func() { x.inCallback-- }()
+		if repeating {
+			x.inRepeatingCallbackOf[t]++
+			defer func() { x.inRepeatingCallbackOf[t]-- }()
+		}
 		x.firedThisPoll++
 		c.Logf("    <- timer %d fires (schedule %d, %v after the call, requested %v)", t.id, id, now.Sub(t.tCall), d)
 		if t.state == tClosed {
@@ -150,8 +185,13 @@ func (x *c04World) schedule(t *c04Timer, d time.Duration, repeating bool) {
 			t.lastFire = now
 			x.ticks++
 		}
-		if t.T.Scheduled() != (t.state == tScheduled) && !repeating {
-			c.Failf("scheduled-flag-differs/in-callback", "timer %d: Scheduled()=%v inside the callback of a one-shot schedule", t.id, t.T.Scheduled())
+		if t.T.Scheduled() != (t.state == tScheduled) {
+			if repeating {
+				// listed finding (the pinned suite asserts this value): recorded without ending the case
+				c.SoftFailf("scheduled-flag-differs/in-repeating-callback", "timer %d: Scheduled()=%v inside the callback of a repeating schedule, whose next tick is still due", t.id, t.T.Scheduled())
+			} else {
+				c.Failf("scheduled-flag-differs/in-callback", "timer %d: Scheduled()=%v inside the callback of a one-shot schedule (nothing is due any more)", t.id, t.T.Scheduled())
+			}
 		}
 		x.behave(t, fmt.Sprintf("timer %d", t.id))
 	}
@@ -235,6 +275,56 @@ func (x *c04World) newTimer() *c04Timer {
 	return t
 }
 
+// zeroDelayChain: ScheduleOnce(<=0) from inside the callback of ScheduleOnce(<=0), depth levels deep (more than the
+// library's callback-nesting limit). At every level: either the callback has run when ScheduleOnce returns, or it is
+// still due - then Scheduled() says so and a Cancel keeps it from ever running.
+func (x *c04World) zeroDelayChain(depth int) {
+	c := x.c
+	var pendingAfterCancel []*bool
+	var level func(i int)
+	level = func(i int) {
+		if i >= depth || c.Failed() {
+			return
+		}
+		T, err := sonic.NewTimer(x.w.IOC)
+		if err != nil {
+			c.Failf("harness-setup", "NewTimer: %v", err)
+			return
+		}
+		defer T.Close()
+		ran := new(bool)
+		cancelled := false
+		err = T.ScheduleOnce(0, func() {
+			if cancelled {
+				c.Failf("timer-fired-after-cancel", "zero-delay chain, nesting level %d: the callback ran after a successful Cancel", i)
+				return
+			}
+			*ran = true
+			level(i + 1)
+		})
+		if err != nil {
+			c.Failf("schedule-failed-on-ready-timer", "zero-delay chain, nesting level %d: ScheduleOnce(0) returned %v", i, err)
+			return
+		}
+		if !*ran {
+			if !T.Scheduled() {
+				c.Failf("scheduled-flag-differs/zero-delay", "zero-delay chain, nesting level %d: ScheduleOnce(0) returned without having run the callback, and Scheduled() is false although the callback is still due", i)
+				return
+			}
+			if cerr := T.Cancel(); cerr == nil {
+				cancelled = true
+				pendingAfterCancel = append(pendingAfterCancel, ran)
+			}
+		}
+	}
+	level(0)
+	for i := 0; i < 4 && !c.Failed(); i++ {
+		x.poll()
+	}
+	c.Count("zero_delay_chains", 1)
+	c.Max("zero_delay_chain_depth", int64(depth))
+}
+
 func (x *c04World) poll() {
 	x.firedThisPoll = 0
 	x.w.Poll()
@@ -252,7 +342,7 @@ func runC04(c *vf.Case) {
 	}
 	defer w.Teardown()
 	w.LostCheck = false
-	x := &c04World{c: c, r: r, w: w}
+	x := &c04World{c: c, r: r, w: w, inRepeatingCallbackOf: map[*c04Timer]int{}}
 	defer func() {
 		for _, t := range x.timers {
 			if t.state != tClosed {
@@ -270,6 +360,9 @@ func runC04(c *vf.Case) {
 		if o, err := w.NewObj(sim.KConnDialed, false); err == nil {
 			conns = append(conns, o)
 		}
+	}
+	if r.Chance(1, 6) {
+		x.zeroDelayChain(r.Range(20, 70))
 	}
 	steps := r.Range(10, 40)
 	for s := 0; s < steps && !c.Failed(); s++ {
@@ -328,8 +421,37 @@ func runC04(c *vf.Case) {
 					dueIDs = append(dueIDs, tt.sched)
 				}
 			}
+			// a repeating schedule whose next tick is overdue must tick again as well
+			var dueRep []*c04Timer
+			var dueRepIDs, dueRepTicks []int
+			for _, tt := range x.timers {
+				ref := tt.tAfter
+				if !tt.lastFire.IsZero() {
+					ref = tt.lastFire
+				}
+				if tt.state == tScheduled && tt.repeating && time.Since(ref) > tt.d+time.Millisecond {
+					dueRep = append(dueRep, tt)
+					dueRepIDs = append(dueRepIDs, tt.sched)
+					dueRepTicks = append(dueRepTicks, tt.fires[tt.sched])
+				}
+			}
 			for i := 0; i < 3; i++ {
 				x.poll()
+			}
+			stalled := func() *c04Timer {
+				for i, tt := range dueRep {
+					if tt.state == tScheduled && tt.sched == dueRepIDs[i] && tt.fires[dueRepIDs[i]] == dueRepTicks[i] {
+						return tt
+					}
+				}
+				return nil
+			}
+			for dl := time.Now().Add(3 * time.Second); stalled() != nil && time.Now().Before(dl) && !c.Failed(); {
+				time.Sleep(200 * time.Microsecond)
+				x.poll()
+			}
+			if tt := stalled(); tt != nil && !c.Failed() {
+				c.Failf("repeating-timer-stopped", "timer %d: repeating schedule %d (interval %v) was neither cancelled nor closed, its next tick is overdue and it did not tick although the loop kept polling for 3 s (%d ticks so far)", tt.id, tt.sched, tt.d, tt.fires[tt.sched])
 			}
 			// The expiry is delivered by a kernel timer interrupt, which a loaded (virtual) CPU can delay by
 			// milliseconds: keep polling, and only call it lost after 3 s of wall-clock time (bounded progress).
@@ -372,6 +494,7 @@ func runC04(c *vf.Case) {
 	c.Count("batches_with_ge2_expired_timers", x.batches2)
 	c.Count("cross_handler_ops_on_expired_unprocessed_timer", x.crossOps)
 	c.Count("repeating_ticks", x.ticks)
+	c.Count("schedule_calls_on_a_repeating_timer_from_its_own_callback", x.selfSchedulesInRepeating)
 	if x.minSlack != 0 {
 		c.Min("min_slack_ns", int64(x.minSlack))
 	}
